@@ -103,7 +103,7 @@ def main(ck):
                     'ellipsoid/cylinder pairs go through the native GJK/EPA collider: tolerance K_CCD*ccd_tolerance; '
                     'cases where EPA hits ccd_iterations are not distinguishable through the API and would alarm']
   calib = dict(prim=0.0, frame=0.0, ccd=0.0, gd_sym=0.0, gd_con=0.0, between=0.0)
-  stats = dict(boxbox_band=0, boxbox_missing=0, gd_touching_band=0, epa_touching_band=0, translation_variant=0)
+  stats = dict(boxbox_band=0, boxbox_missing=0, gd_touching_band=0, epa_touching_band=0, translation_variant=0, frame_f3=0)
   nposes = 8
 
   def test(case):
@@ -202,9 +202,15 @@ def main(ck):
       if record:
         ck.case(nontrivial=False, labels=['illconditioned(skipped)'])
       return
-    tprim = sc * (K_PRIM + K_COND * 2.2e-16 * cond)
     t1, t2 = sorted((S[0].typ, S[1].typ), key=ORDER.get)
     pair = (t1, t2)
+    # capsule-box works with line/box-edge intersections whose parameters are themselves quotients by the sine:
+    # observed error ~ eps/angle^2 (4e-8 at 3e-5 rad)
+    tprim = sc * (K_PRIM + K_COND * 2.2e-16 * (cond * cond if pair == ('capsule', 'box') else cond))
+    if tprim > 1e-6 * sc:
+      if record:
+        ck.case(nontrivial=False, labels=['illconditioned(skipped)'])
+      return
     is_ccd = pair not in NON_CCD
     tdist = tprim + (K_CCD * tol_ccd if is_ccd else 0.0)
     smin = min(S[0].minsize(), S[1].minsize())
@@ -229,11 +235,23 @@ def main(ck):
 
     # ---- every contact: frame, margin bound, ids
     dmin, kmin = None, -1
+    labels_pre = []
     for k in range(ncon):
       c = con[k]
+      if dmin is None or c['dist'] < dmin:
+        dmin, kmin = float(c['dist']), k
       F = np.array(c['frame']).reshape(3, 3)
       err = float(np.max(np.abs(F @ F.T - np.eye(3))))
       calib['frame'] = max(calib['frame'], err)
+      if pair == ('plane', 'capsule') and np.linalg.norm(np.cross(S[0].mat[:, 2], S[1].mat[:, 2])) < 1e-14:
+        # FINDING F3 (see report): capsule axis exactly parallel to the plane normal -> mju_makeFrame receives a
+        # tangent parallel to the normal and returns a non-orthogonal frame unless the normal happens to be
+        # orthogonal to (1,0,0).  Counted, not asserted.
+        if err > K_FRAME:
+          labels_pre.append('frame-not-orthonormal(F3 known, capsule perpendicular to plane)')
+          if record:
+            stats['frame_f3'] += 1
+          continue
       if not err <= K_FRAME + K_COND * 2.2e-16 * cond:   # tangent given by a capsule axis nearly parallel to n
         hard('contact frame not orthonormal: |F F^T - I| = %.3g' % err, 'frame')
       if np.linalg.det(F) < 0.5:
@@ -253,6 +271,7 @@ def main(ck):
     deep = dmin is not None and dmin < -DEEP * smin
     labels = ['pair:%s-%s/%s' % (t1, t2, 'contact' if ncon else 'none'), 'delta:' + info['dclass'],
               'orient:' + info['okind'], 'dir:' + info['dkind']]
+    labels += labels_pre
     if deep:
       labels.append('deep(invariants only)')
 
@@ -299,9 +318,9 @@ def main(ck):
             # one-sided: the witness pair is a real pair of surface points, so dist >= true distance >= SAT bound
             if dmin < sat - tprim:
               hard('box-box dist %.17g below the separating-axis bound %.17g' % (dmin, sat), 'dist:box-box')
-            if abs(w + dmin) > tprim:
-              hard('box-box normal is not the axis of the reported distance: gap along n %.17g, dist %.17g' % (
-                  -w, dmin), 'normal:box-box')
+            if sat > tprim and not (-w > 0 and -w <= dmin + tprim):
+              hard('box-box normal does not separate the boxes: gap along n %.17g, dist %.17g' % (-w, dmin),
+                   'normal:box-box')
       elif not deep and not is_ccd:
         err = abs(w + dmin)
         if not err <= tdist:
